@@ -388,7 +388,11 @@ class RF24Mesh(RF24MeshNoMaster):
                 self.frame_buf.header.to_node = self.frame_buf.header.from_node
                 self.frame_buf.message = struct.pack("<H", new_addr)
                 if self.frame_buf.header.from_node != NETWORK_DEFAULT_ADDR:
+                    response = self.frame_buf.pack()
                     if not self._write(self.frame_buf.header.to_node, TX_NORMAL):
+                        # frames handled while waiting for the NETWORK_ACK
+                        # may have overwritten the frame_buf
+                        self.frame_buf.unpack(response)
                         self._write(self.frame_buf.header.to_node, TX_NORMAL)
                 else:
                     self._write(self.frame_buf.header.to_node, TX_PHYSICAL)
